@@ -3,18 +3,14 @@ NOTES = ("All checks: ./check <id> --tier quick|thorough [--replay path]. Exit 0
          "2 inconclusive (build failure, timeout, unreproduced or vacuous run: never a verdict). The generated protobuf code and gomock "
          "mocks that the pinned tree lacks are produced by setup.sh into /verif/.build and injected with go build -overlay; /repo is not modified by checks.")
 
-ENGINES = [
-    dict(name='Placement', path='/verif/spec/Placement.tla', serves_properties=['C16'], kind_free_text='TLA+ spec of the coordinator shard->node selector; TLC exhaustive + edge-cover replay on pkg/node + liaison/grpc registry'),
-    dict(name='Routing', path='/verif/spec/Routing.tla', serves_properties=['C16'], kind_free_text='TLA+ spec of the shard function as observed across coordinator processes; trace validation (RoutingTrace.tla)'),
-]
+ENGINES = []
 
-check('C16', 'model_checking',
-      'TLC checks Total/Functional/ReplicaDisjoint/Confluent/Balanced on Placement.tla exhaustively (groups x shards x replicas x nodes x event sequences incl. repeated and unknown add/remove, updates, re-list); every edge of that state graph plus deep -simulate behaviours is replayed on the real roundRobinSelector behind the real clusterNodeService and Locate() is compared with the spec after every event; the shard function is validated code->spec: Route events from two OS processes must form a behaviour of Routing.tla.',
-      'Names map monotonically to model integers; the hash is uninterpreted (agreement + range, not distribution); bounds in evidence.tlc_constants.',
-      'TLA+/TLC exhaustive model checking + state-graph edge-cover replay into the real selector + TLC trace validation of routing events',
-      'Placement', 'DESIGN.md §5 C16')
+import glob
+for _f in sorted(glob.glob('/verif/tools/manifest.d/*.py')):
+    exec(open(_f).read())
 
-for pid in ['C01','C02','C03','C04','C05','C06','C07','C08','C09','C10','C12','C13','C14','C15','C17','C18','C19','C20']:
-    NA[pid] = 'not claimed yet: the specification and conformance harness for this property are still being built (see DESIGN.md §10 build order)'
+for pid in ['C%02d' % i for i in range(1, 21)]:
+    if pid not in CHECKS and pid not in NA:
+        NA[pid] = 'not claimed yet: the specification and conformance harness for this property are still being built (see DESIGN.md §10 build order)'
 NA['C11'] = ('quantifies over raw value/byte domains (all int64/float64 bit patterns, arbitrary corrupted byte strings) with no state or protocol to model; '
              'a TLA+ transcription at toy widths would say nothing about 64-bit rounding or decoder bounds panics (DESIGN.md §6)')
